@@ -227,6 +227,16 @@ def _invalidate_on_write(col, rule="C07.R1"):
             "the cache is (re)built from the current column exactly when _index_cache is None, and both dictionaries come from the same fill", "")
 
 
+def _item_form(t):
+    """f(..)[0] and the first name of `a, b = f(..)` are the same component of the call's result"""
+    if not isinstance(t, tuple):
+        return t
+    t = tuple(_item_form(x) for x in t)
+    if t[:1] == ("sub",) and len(t) == 3 and S.is_call_of(t[1]) and t[2][:1] == ("const",) and t[2][1].lstrip("-").isdigit():
+        return ("item", t[1], int(t[2][1]))
+    return t
+
+
 def _row_resolution(sx: SCtx, row_from):
     """alternatives of the row index used to subscript the column in a cell access, with the row selector abstracted"""
     out = set()
@@ -247,6 +257,7 @@ def _row_resolution(sx: SCtx, row_from):
                         continue    # not a cell access by (col, row): e.g. the whole-column write self._data[key][:] = v
                     hits.append(ev)
                     for i in insts:
+                        i = _item_form(i)
                         out.add(S.show(S.subst(i, {("item", row_from, 1): ("glob", "ROW"), ("sub", row_from, ("const", "1")): ("glob", "ROW")}), False))
     # the resolution alternatives may sit in one expression or be spread over several returns / stores
     if len(out) < 3:
